@@ -20,7 +20,29 @@ type countingClock struct {
 	hold    bool       // ticks are being held back (the process is stalled as far as its ticker goes)
 	held    *time.Time // the one pending tick
 	heldOut chan time.Time
+	skew    time.Duration // how far the node's wall clock (Now) lags the time base of its timers (0 unless the wall clock was stalled)
 }
+
+// The node reads the time of day (Now) and sleeps on timers; the two are not the same time base
+// (NTP slews and steps the wall clock, a VM clock may be held back). stallWall lets the timers
+// run for d while the wall clock stands still; Now, Until and Since answer in wall time and the
+// stamps of ticker ticks are wall-clock readings, exactly as with the real clock.
+func (c *countingClock) stallWall(d time.Duration) {
+	c.mu.Lock()
+	c.skew += d
+	c.mu.Unlock()
+	c.FakeClock.Advance(d)
+}
+
+func (c *countingClock) wallSkew() time.Duration {
+	c.mu.Lock()
+	defer c.mu.Unlock()
+	return c.skew
+}
+
+func (c *countingClock) Now() time.Time                  { return c.FakeClock.Now().Add(-c.wallSkew()) }
+func (c *countingClock) Until(t time.Time) time.Duration { return t.Sub(c.Now()) }
+func (c *countingClock) Since(t time.Time) time.Duration { return c.Now().Sub(t) }
 
 func (c *countingClock) Sleep(d time.Duration) {
 	isCatchup := false
@@ -95,6 +117,7 @@ func (h *heldTicker) Stop()                  { h.inner.Stop() }
 func (h *heldTicker) pump() {
 	for nt := range h.inner.Chan() {
 		h.c.mu.Lock()
+		nt = nt.Add(-h.c.skew) // a tick is stamped with the wall clock
 		if h.c.hold {
 			if h.c.held == nil {
 				t := nt
